@@ -28,7 +28,7 @@ from ..monitors import EvalTracer
 
 glom = env.bind()
 import glom.core as gcore  # noqa: E402
-from glom import (T, Path, Coalesce, Or, And, Switch, Match, Check, Val, Pipe, Spec, M, GlomError, Fill, Auto,  # noqa: E402
+from glom import (T, Path, Not, Flatten, Coalesce, Or, And, Switch, Match, Check, Val, Pipe, Spec, M, GlomError, Fill, Auto,  # noqa: E402
                   glom as G)
 
 META = {
@@ -217,7 +217,7 @@ def make_target(style):
 
 
 FAIL_KINDS = ['missing-path', 'failing-T', 'raising-callable', 'match-type', 'check', 'exhausted-coalesce', 'missing-attr',
-              'exhausted-coalesce-skip', 'list-segment']
+              'exhausted-coalesce-skip', 'list-segment', 'raises-after-recovered-child', 'exhausted-coalesce-of-T']
 
 
 class SpecGen:
@@ -251,6 +251,18 @@ class SpecGen:
                 return Match({'k': str, 'zz%d' % n: object})
             if k == 'check':
                 return Check(T['k'], equal_to=-n)
+            if k == 'raises-after-recovered-child':
+                # a spec that evaluates a child and then raises ON ITS OWN, the child being a branching spec that recovered
+                rec = self.rng.choice([lambda: Coalesce('zz%d' % n, T['yy%d' % n], T), lambda: Or('zz%d' % n, T),
+                                       lambda: Coalesce('zz%d' % n, default=3.5)])()
+                return self.rng.choice([lambda: Check(rec, type=complex), lambda: Not(rec), lambda: Check(rec, equal_to=-n),
+                                        lambda: Flatten(rec)])()
+            if k == 'exhausted-coalesce-of-T':
+                # all (or all but one) alternatives are bare T expressions
+                alts = [T['yy%d' % n], T.zz_attr, T['a']['xx%d' % n]]
+                if self.rng.random() < 0.5:
+                    alts.insert(self.rng.randint(0, 3), 'zz%d' % n)
+                return Coalesce(*alts)
             if k == 'exhausted-coalesce-skip':
                 # alternatives that SUCCEED but are rejected by skip=, mixed with raising ones (1 or 2), in any order
                 alts = [OkFn(self.tag()) for _ in range(self.rng.randint(1, 2))] + \
@@ -471,6 +483,20 @@ def check_message(col, msg, root, target, desc, key, width):
                                      '%s: %s attempted %s, which ended with %r; the trace does not show that branch with its error\n%s'
                                      % (desc, type(f.spec).__name__, short(fmt_full(ch.spec), 100), want_err, msg), wit)
             idx = found
+    # (6a') an exhausted Coalesce / Or attempted ALL its alternatives: one that left no frame at all (evaluated by some
+    # shortcut that bypasses the recursion function) must still be listed
+    for f in anc:
+        alts = f.spec.subspecs if type(f.spec) is Coalesce else f.spec.children if type(f.spec) is Or else None
+        if alts is None or f.outcome != 'raise' or f is not failing:
+            continue
+        for sub in alts:
+            if any(ch.spec is sub for ch in f.children):
+                continue
+            col.count('frameless_alternatives_looked_up')
+            if not any(ln.kind == 'Spec' and matches(ln.text, sub) for ln in tokens):
+                return col.violation('C05/attempted-branch-missing:%s' % type(f.spec).__name__,
+                                     '%s: the exhausted %s attempted %s; the trace does not list it\n%s'
+                                     % (desc, type(f.spec).__name__, short(fmt_full(sub), 100), msg), wit)
     # (6b) no error line from a recovered (stale) branch
     live_errors = set()
     for f in frames:
